@@ -120,17 +120,24 @@ def load_known():
 # ---------------------------------------------------------------------------------------------
 # Parts
 
-def e1_part(prop_arg, cases, name=None):
+def e1_part(prop_arg, cases, name=None, release=False):
+    """release=False: arithmetic overflow in truc panics (seen as a panic); release=True: it wraps
+    (seen as a wrong layout). The seed differs between the two so that they explore different cases."""
     def f(tier):
-        exe = cargo_build("e1_layout")
+        exe = cargo_build("e1_layout", release=release)
         os.makedirs(WORK, exist_ok=True)
-        out = os.path.join(WORK, "e1_%s_%s.json" % (prop_arg, os.getpid()))
-        r = run_engine([exe, "run", prop_arg, str(cases[tier]), out], out, "e1_layout run " + prop_arg)
+        out = os.path.join(WORK, "e1_%s_%s%s.json" % (prop_arg, os.getpid(), "_r" if release else ""))
+        r = run_engine([exe, "run", prop_arg, str(cases[tier]), out], out, "e1_layout run " + prop_arg,
+                       extra_env={"VERIF_SEED": str(seed() + 7919)} if release else None)
         r.setdefault("property", prop_arg)
-        r["part"] = name or ("e1:" + prop_arg)
-        r["replay_engine"] = "e1"
+        r["part"] = (name or ("e1:" + prop_arg)) + ("[optimised build]" if release else "")
+        r["replay_engine"] = "e1-release" if release else "e1"
         return r
     return f
+
+
+def e1_parts(prop_arg, cases):
+    return [e1_part(prop_arg, cases), e1_part(prop_arg, cases, release=True)]
 
 
 def e4_part(prop_arg, cases, max_len, release):
@@ -470,9 +477,9 @@ def e5_part(prop_arg, n):
 
 
 PROPERTIES = {
-    "C01": dict(level="exploration", parts=[e1_part("C01", dict(quick=400000, thorough=4000000))] + [fuzz_part("layout", "C01", dict(quick=0, thorough=250000), 256)]),
-    "C02": dict(level="exploration", parts=[e1_part("C02", dict(quick=400000, thorough=3000000))] + e3_parts("C02", "B", dict(quick=20000, thorough=200000)) + [fuzz_part("layout", "C02", dict(quick=0, thorough=250000), 256)]),
-    "C03": dict(level="exploration", parts=[e1_part("C03", dict(quick=400000, thorough=4000000))] + e3_parts("C03", "B", dict(quick=100000, thorough=1500000)) + [e5_part("C03", dict(quick=400, thorough=6000))] + [fuzz_part("layout", "C03", dict(quick=0, thorough=250000), 256)]),
+    "C01": dict(level="exploration", parts=e1_parts("C01", dict(quick=400000, thorough=4000000)) + [fuzz_part("layout", "C01", dict(quick=0, thorough=250000), 256)]),
+    "C02": dict(level="exploration", parts=e1_parts("C02", dict(quick=400000, thorough=3000000)) + e3_parts("C02", "B", dict(quick=20000, thorough=200000)) + [fuzz_part("layout", "C02", dict(quick=0, thorough=250000), 256)]),
+    "C03": dict(level="exploration", parts=e1_parts("C03", dict(quick=400000, thorough=4000000)) + e3_parts("C03", "B", dict(quick=100000, thorough=1500000)) + [e5_part("C03", dict(quick=400, thorough=6000))] + [fuzz_part("layout", "C03", dict(quick=0, thorough=250000), 256)]),
     "C04": dict(level="exploration", parts=e3_parts("C04", "AB", dict(quick=150000, thorough=2500000)) + [fuzz_part("gendrive", "C04", dict(quick=0, thorough=150000), 160)]),
     "C05": dict(level="exploration", parts=e3_parts("C05", "AB", dict(quick=150000, thorough=2500000)) + [fuzz_part("gendrive", "C05", dict(quick=0, thorough=150000), 160)]),
     "C06": dict(level="exploration", parts=e3_parts("C06", "AB", dict(quick=150000, thorough=2500000)) + [fuzz_part("gendrive", "C06", dict(quick=0, thorough=200000), 160)]),
@@ -482,17 +489,18 @@ PROPERTIES = {
     "C08": dict(level="exploration", parts=e4_parts("C08", dict(quick=150000, thorough=2000000), dict(quick=8, thorough=12)) + [e5_part("C08", dict(quick=120, thorough=1500))] + [fuzz_part("vecconv", "C08", dict(quick=0, thorough=600000), 128)]),
     "C09": dict(level="fault_enumeration", parts=e4_parts("C09", dict(quick=150000, thorough=2000000), dict(quick=8, thorough=11)) + [fuzz_part("vecconv", "C09", dict(quick=0, thorough=600000), 128)]),
     "C10": dict(level="exploration", parts=e4_parts("C10", dict(quick=100000, thorough=800000), dict(quick=12, thorough=40)) + [fuzz_part("vecconv", "C10", dict(quick=0, thorough=600000), 128)]),
-    "C12": dict(level="exploration", parts=[e1_part("C12", dict(quick=400000, thorough=4000000))] + [fuzz_part("layout", "C12", dict(quick=0, thorough=250000), 256)]),
+    "C12": dict(level="exploration", parts=e1_parts("C12", dict(quick=400000, thorough=4000000)) + [fuzz_part("layout", "C12", dict(quick=0, thorough=250000), 256)]),
     "C11": dict(level="exploration", parts=[e5_part("C11", dict(quick=1500, thorough=10000))]),
-    "C13": dict(level="exploration", parts=[e1_part("C13", dict(quick=60000, thorough=800000)), e5_part("C13", dict(quick=120, thorough=1500))] + [fuzz_part("layout", "C13", dict(quick=0, thorough=60000), 256)]),
+    "C13": dict(level="exploration", parts=e1_parts("C13", dict(quick=60000, thorough=800000)) + [e5_part("C13", dict(quick=120, thorough=1500))] + [fuzz_part("layout", "C13", dict(quick=0, thorough=60000), 256)]),
     "C14": dict(level="exploration", parts=[e5_part("C14", dict(quick=250, thorough=2000))]),
     "C17": dict(level="exploration", parts=[e5_part("C17", dict(quick=1500, thorough=20000))]),
-    "C18": dict(level="exploration", parts=[e1_part("C18", dict(quick=80000, thorough=800000))]),
+    "C18": dict(level="exploration", parts=e1_parts("C18", dict(quick=80000, thorough=800000))),
     "C19": dict(level="exploration", parts=[
         e1_part("C19", dict(quick=12000, thorough=150000)),
+        e1_part("C19", dict(quick=12000, thorough=150000), release=True),
         e1_part("C19x", dict(quick=600, thorough=8000)),
     ]),
-    "C20": dict(level="exploration", parts=[e1_part("C20", dict(quick=200000, thorough=2000000))] + [fuzz_part("layout", "C20", dict(quick=0, thorough=250000), 256)]),
+    "C20": dict(level="exploration", parts=e1_parts("C20", dict(quick=200000, thorough=2000000)) + [fuzz_part("layout", "C20", dict(quick=0, thorough=250000), 256)]),
 }
 
 
@@ -527,8 +535,8 @@ def replay(prop, path):
     data = json.load(open(path))
     engine = data.get("engine", "e1")
     try:
-        if engine == "e1":
-            exe = cargo_build("e1_layout")
+        if engine in ("e1", "e1-release"):
+            exe = cargo_build("e1_layout", release=(engine == "e1-release"))
             rc, out = run([exe, "replay", data.get("replay_property", prop), path], timeout=600)
             print(out, end="")
             if rc == 1:
